@@ -32,7 +32,7 @@ def _arr(x):
     x = np.asarray(x)
     k = x.dtype.kind
     if k in "fc":
-        return np.array(x, dtype=np.complex128 if k == "c" else np.float64, copy=True)
+        return np.array(x, copy=True)  # precision (float32 / float64) is part of the answer
     if k in "iub":
         return np.array(x, dtype=np.int64, copy=True)
     return {"__objarr__": list(x.shape), "v": [norm(v) for v in x.ravel().tolist()]}
@@ -167,6 +167,8 @@ def same(a, b, tol=TOL):
         if not (isinstance(a, np.ndarray) and isinstance(b, np.ndarray)):
             return False
         if a.shape != b.shape or a.dtype.kind != b.dtype.kind:
+            return False
+        if a.dtype.kind in "fc" and a.dtype != b.dtype:
             return False
         if a.dtype.kind in "fc":
             if a.size == 0:
